@@ -9,6 +9,7 @@ import (
 	"os"
 	"sort"
 	"strings"
+	"sync"
 
 	"golang.org/x/tools/go/ssa"
 )
@@ -97,6 +98,7 @@ type FuncGen struct {
 	seed     []string
 	safety   bool
 	assumeSafe bool
+	anchors  map[string]string
 	nonEsc   map[ssa.Value]bool
 	localRefs []string // refs of non-escaping local allocations made so far (terms)
 	// localRefClasses: for a local ref, the heap classes in which it can hold data (fields of its struct type,
@@ -476,6 +478,40 @@ func (g *FuncGen) curGuardOrTrue() string {
 	return g.bcond[g.curBlock]
 }
 
+// anchor records the source text at a position that a contract refers to by ORDINAL (loop N, call F#N).
+// The baseline keeps these texts; when an ordinal later lands on different source text (a loop or a call was
+// inserted before it), the contract is stale and its function is reported UNDECIDED, not as a violation.
+func (g *FuncGen) anchor(key string, pos token.Pos) {
+	if g.anchors == nil {
+		g.anchors = map[string]string{}
+	}
+	g.anchors[key] = sourceLine(g.prog.Fset, pos)
+}
+
+var srcCache sync.Map
+
+func sourceLine(fset *token.FileSet, pos token.Pos) string {
+	if !pos.IsValid() {
+		return "-"
+	}
+	p := fset.Position(pos)
+	var lines []string
+	if v, ok := srcCache.Load(p.Filename); ok {
+		lines = v.([]string)
+	} else {
+		b, err := os.ReadFile(p.Filename)
+		if err != nil {
+			return "-"
+		}
+		lines = strings.Split(string(b), "\n")
+		srcCache.Store(p.Filename, lines)
+	}
+	if p.Line < 1 || p.Line > len(lines) {
+		return "-"
+	}
+	return strings.Join(strings.Fields(lines[p.Line-1]), " ")
+}
+
 func (g *FuncGen) addObl(o *Obligation) {
 	o.NAsserts = len(g.c.asserts)
 	if g.curBlock != nil && !o.ExpectSat && g.fn != nil {
@@ -586,6 +622,9 @@ func (g *FuncGen) analyzeCFG() {
 		}
 		if g.contract != nil {
 			li.spec = g.contract.Loops[li.ordinal]
+			if li.spec != nil {
+				g.anchor(fmt.Sprintf("loop %d", li.ordinal), li.minPos)
+			}
 		}
 	}
 	if g.contract != nil {
